@@ -64,6 +64,7 @@ int main(int argc, char** argv) {
     const bool T = true /* the wide lattices run in both tiers */; const bool D = R.thorough(); (void)D;
     std::vector<unsigned> stepss = T ? std::vector<unsigned>{16, 24, 40, 64, 100, 200, 400} : std::vector<unsigned>{24, 64};
     std::vector<unsigned> ns = T ? std::vector<unsigned>{32, 33, 48, 64, 65, 96} : std::vector<unsigned>{32, 33};
+    if (D) { stepss.push_back(800); ns.push_back(128); }     // thorough: a finer time step and a finer grid
     std::vector<float> shifts = T ? std::vector<float>{-3, 0, 2} : std::vector<float>{0, 2};
     std::vector<unsigned> its = T ? std::vector<unsigned>{2, 3, 4} : std::vector<unsigned>{3, 4};
     const double starts[][2] = {{1.0, 0.0}, {0.0, -1.2}, {-0.8, 0.7}, {0.5, 1.0}, {-1.1, -0.4}, {0.9, -0.9}, {0.0, 0.6}, {-0.6, 0.0}, {0.3, 0.25}};
@@ -86,6 +87,11 @@ int main(int argc, char** argv) {
         if (!R.mine(kase)) continue;
         if (R.out_of_time()) { R.not_completed = kase; goto done; }
         const double a = 2 * M_PI / steps, dq = 12.0 / (n - 1);
+        // sinusoidal voltage: its curvature over the extent of the blob, V0/Veff x (RF phase per natural length) x <q^2>/2, shifts the fixed point of the motion; the
+        // centroid circles around that point, i.e. deviates from the rotation about the origin by up to twice the shift (4e-4 at 1 MV, 3e-3 at 200 kV)
+        double fixshift = 0;
+        if (!linear) { const double E0 = 1.3e9, dE = 4.7e-4 * E0, frev = 9e6, fs = 4.5e4, Rb = physcons::c / (2 * M_PI * frev), V0 = physcons::e * std::pow(E0 / physcons::me, 4) / (3 * physcons::epsilon0 * Rb);
+                       const double Veff = std::sqrt(VRF * VRF - V0 * V0), ph = 2 * M_PI * dE * fs / (frev * Veff); fixshift = V0 / Veff * ph * (w * w + q0 * q0 + p0 * p0) / 2; }
         Traj ref; bool have_ref = false;
         for (float sx : shifts) for (float sy : shifts) {
             bool fin; Traj t = run(n, steps, sx, sy, it, q0, p0, w, linear, fin, nb, bsel, VRF);
@@ -107,7 +113,7 @@ int main(int argc, char** argv) {
             double phase = 0; bool bad = false;
             for (unsigned k = 1; k <= valid && !bad; k++) {
                 const double wq = c0q * std::cos(k * a) - c0p * std::sin(k * a), wp = c0q * std::sin(k * a) + c0p * std::cos(k * a);
-                const double err = std::hypot(t.q[k] - wq, t.p[k] - wp), tol = (0.6 * a + a * a + 2e-3) * r0 + 0.02 * dq;
+                const double err = std::hypot(t.q[k] - wq, t.p[k] - wp), tol = (0.6 * a + a * a + 2e-3) * r0 + 0.02 * dq + 2 * fixshift;
                 worst_step = std::max(worst_step, err / tol);
                 if (!(err <= tol)) {
                     char d[240]; snprintf(d, 240, "shift (%g,%g) step %u: centroid (%.5f, %.5f), exact rotation (%.5f, %.5f), error %.4g > %.4g", sx, sy, k, t.q[k], t.p[k], wq, wp, err, tol);
